@@ -272,6 +272,13 @@ func check(in Input) *fail {
 				if i == ex.errAt {
 					if err == nil {
 						f = &fail{"invalid-member-accepted", fmt.Sprintf("error at member %d", i), "nil"}
+						return
+					}
+					// A refused member was assigned nothing: the table is what it was, and the
+					// members that follow are numbered as if it had not been offered.
+					rest := Input{Bits: in.Bits, Path: in.Path, Names: append(append([]string{}, in.Names[:i]...), in.Names[i+1:]...), Values: append(append([]string{}, in.Values[:i]...), in.Values[i+1:]...)}
+					if pf := continueAfterRefusal(e, rest, i); pf != nil {
+						f = pf
 					}
 					return
 				}
@@ -338,6 +345,38 @@ func check(in Input) *fail {
 		return &fail{"panic", "no panic", pt}
 	}
 	return f
+}
+
+// continueAfterRefusal goes on with the members from index i of rest (the list without the refused
+// member) on the table e, which holds the members before i.
+func continueAfterRefusal(e *yang.EnumType, rest Input, i int) *fail {
+	for ; i < len(rest.Names); i++ {
+		pre := Input{Bits: rest.Bits, Path: rest.Path, Names: rest.Names[:i+1], Values: rest.Values[:i+1]}
+		ex := reference(pre)
+		var err error
+		if rest.Values[i] == "" {
+			err = e.SetNext(rest.Names[i])
+		} else {
+			v, _ := new(big.Int).SetString(rest.Values[i], 10)
+			err = e.Set(rest.Names[i], v.Int64())
+		}
+		if ex.errAt == i {
+			if err == nil {
+				return &fail{"invalid-member-accepted@after-a-refused-member", fmt.Sprintf("error at %q", rest.Names[i]), "nil"}
+			}
+			rest = Input{Bits: rest.Bits, Path: rest.Path, Names: append(append([]string{}, rest.Names[:i]...), rest.Names[i+1:]...), Values: append(append([]string{}, rest.Values[:i]...), rest.Values[i+1:]...)}
+			i--
+			continue
+		}
+		if err != nil {
+			return &fail{"valid-member-rejected@after-a-refused-member", "nil (a refused member was assigned nothing)", fmt.Sprintf("%q: %v", rest.Names[i], err)}
+		}
+	}
+	if pf := compareType(rest, e, reference(rest).byName); pf != nil {
+		pf.fp += "@after-a-refused-member"
+		return pf
+	}
+	return nil
 }
 
 func maxLen(tier, path string) int {
